@@ -188,6 +188,45 @@ def shipped_heap(chk, rng):
         chk.violation("C14.ShippedTableChanged", {"tables": bad}, {})
 
 
+def same_points_on_every_pair_of_tables(chk):
+    """The same BC points (by Mach) built on one shipped table and IMMEDIATELY afterwards on another, for every ordered pair of
+    the nine tables (some pairs have the same number of nodes and the same first and last Mach number but other nodes in
+    between): each model realises the clamped piecewise-linear BC at the nodes of ITS OWN table (exact rationals)."""
+    from fractions import Fraction as F
+    m = impl.pb()
+    names = ["G1", "G7", "G2", "G5", "G6", "G8", "GI", "GS", "RA4"]
+    knots = [(F(8, 10), F(22, 100)), (F(12, 10), F(25, 100)), (F(25, 10), F(31, 100))]
+
+    def law(x):
+        x = F(x)
+        if x <= knots[0][0]:
+            return knots[0][1]
+        if x >= knots[-1][0]:
+            return knots[-1][1]
+        for (x0, y0), (x1, y1) in zip(knots, knots[1:]):
+            if x0 <= x <= x1:
+                return y0 + (y1 - y0) * (x - x0) / (x1 - x0)
+
+    def build(name):
+        return m.DragModelMultiBC([m.BCPoint(float(b), Mach=float(a)) for a, b in knots], getattr(m, "Table" + name))
+    for a in names:
+        for b in names:
+            if a == b:
+                continue
+            build(a)
+            mb = build(b)
+            std = getattr(m, "Table" + b)
+            chk.count(1, ("pair-of-tables", a, b))
+            chk.stratum("same_points_built_on_two_tables_in_turn")
+            for pnt, row in zip(mb.drag_table, std):
+                eff = row["CD"] * mb.BC / pnt.CD
+                want = float(law(F(str(row["Mach"]))))
+                if abs(eff - want) > 1e-9 * want:
+                    chk.violation("C14.EffectiveBC", {"src": "pair-of-tables", "built_just_before": a, "table": b},
+                                  {"mach": row["Mach"], "effective_bc": eff, "interpolated_bc": want})
+                    break
+
+
 def run(chk: core.Check, replay_path=None, **_):
     core.use_repo(hooks=False)
     core.reset_world()
@@ -212,8 +251,9 @@ def run(chk: core.Check, replay_path=None, **_):
     chk.stratum("several_points_between_two_table_rows")
     single_equals_plain(chk, rng)
     shipped_heap(chk, rng)
+    same_points_on_every_pair_of_tables(chk)
     chk.sample({"history": behs[len(behs) // 2]})
-    chk.require_strata(["several_points_between_two_table_rows", "preferred_units_changed_between_builds", "build_from_standard", "build_from_other-model", "table_as_dicts", "table_as_datapoints", "single_point",
+    chk.require_strata(["same_points_built_on_two_tables_in_turn", "several_points_between_two_table_rows", "preferred_units_changed_between_builds", "build_from_standard", "build_from_other-model", "table_as_dicts", "table_as_datapoints", "single_point",
                         "single_equals_plain", "shipped_heap"])
     chk.rule.append("every build history of %d builds over 11 point lists (1-3 points, incl. curves returning to their first BC, several orders, on and between nodes) and, on a coarse table, 6 lists of 4-5 points with several points between two table rows x source "
                     "(standard table as dicts / caller-owned data points / another model's table by reference), points by Mach or by "
